@@ -238,13 +238,23 @@ def run(repo, rep):
                              'override (IntEnum prints E(<E.A: 1>), a str subclass with its own __repr__ prints garbage); the base '
                              "type's repr must be used" % (f.name, bad))
         # positive: the base repr is used
-        base_calls = [c for node in [f.node] + [g.node for g in nested] for c in ast.walk(node) if isinstance(c, ast.Call) and (
-            call_name(c) == __import__('engine.roles', fromlist=['x']).name(repo, 'builtin_repr') or call_name(c).endswith('.__repr__'))]
+        brn_ = __import__('engine.roles', fromlist=['x']).name(repo, 'builtin_repr')
+
+        def _is_base_repr_call(c, _m=f.module):
+            if call_name(c) == brn_ or call_name(c).endswith('.__repr__'):
+                return True
+            r__ = repo.resolve(_m, c.func.id) if isinstance(c.func, ast.Name) else None      # imported under another name
+            return bool(r__ and r__[0] == 'func' and r__[1].name == brn_)
+        base_calls = [c for node in [f.node] + [g.node for g in nested] for c in ast.walk(node) if isinstance(c, ast.Call) and _is_base_repr_call(c)]
         if f.name in ('pretty_int', 'pretty_float', 'escape_str_for_quote'):
             n += 1
             rep.check(bool(base_calls), 'C08.c', '%s:uses-base-repr' % f.name, f.where, 'literal from the base type repr',
                       '%s does not obtain the literal from the built-in type\'s own __repr__' % f.name, nontrivial=True)
     br = m.funcs.get(__import__('engine.roles', fromlist=['x']).name(repo, 'builtin_repr'))
+    if br is None:
+        # the helper may live in another module of the package and be imported here
+        brn2_ = __import__('engine.roles', fromlist=['x']).name(repo, 'builtin_repr')
+        br = next((m2.funcs[brn2_] for m2 in repo.modules.values() if brn2_ in m2.funcs), None)
     if br is not None:
         n += 1
         rets = [src(r.value) for r in ast.walk(br.node) if isinstance(r, ast.Return) and r.value is not None]
